@@ -333,7 +333,20 @@ fn undo_predictor(decoded: Vec<u8>, params: &LZWFlateParams) -> Result<Vec<u8>> 
                     row[i .. i + 2].copy_from_slice(&v.to_be_bytes());
                 }
             },
-            _ => bail!("TIFF predictor with {} bits per component is not supported", params.bits_per_component)
+            // samples of 1, 2 or 4 bits, packed most significant bit first; every row starts on a byte boundary
+            Some(bits) => for row in out.chunks_mut(stride) {
+                let per_byte = 8 / bits;
+                let mask = (1u8 << bits) - 1;
+                let get = |row: &[u8], i: usize| (row[i / per_byte] >> (8 - bits * (i % per_byte + 1))) & mask;
+                // (the bits that pad the last byte of a row are no samples)
+                let n_samples = columns.unwrap().saturating_mul(n_components).min(row.len() * per_byte);
+                for i in n_components .. n_samples {
+                    let v = get(row, i).wrapping_add(get(row, i - n_components)) & mask;
+                    let shift = 8 - bits * (i % per_byte + 1);
+                    row[i / per_byte] = row[i / per_byte] & !(mask << shift) | v << shift;
+                }
+            },
+            None => bail!("TIFF predictor with {} bits per component is not supported", params.bits_per_component)
         }
         return Ok(out);
     }
